@@ -189,6 +189,13 @@ def run_case(ctx, c, idx, monitors=None, timeout=400):
     return {"case": c, "res": res, "proj": proj, "out": out, "f1": f1, "f1_path": f1_path, "tag": tag}
 
 
+def unverified_assertions(res):
+    """True when an assertion-filtering execution of the run timed out (machine load): AssertionGenerator then keeps every
+    assertion of that test unverified (it fails open), so state-dependent assertions may be in the written file."""
+    counts = next((e["counts"] for e in res.get("events", []) if e.get("ev") == "log-counts"), {})
+    return counts.get("filter_results_with_timeout", 0) > 0 or counts.get("timeouts_during_assertion_generation", 0) > 0
+
+
 def monitor_calls(res, monitor):
     for e in res.get("events", []):
         if e.get("ev") == "monitor-calls" and e.get("monitor") == monitor:
@@ -357,6 +364,32 @@ def code_rhs_key(code):
     if len(tree.body) != 1:
         return ast.unparse(tree)
     return rhs_key(tree.body[0])
+
+
+def align_statements(stmts, others):
+    """For every snapshot statement the index of its counterpart in ``others`` = [(bound name | None, rhs key)] or None.
+    A bound statement corresponds to the statement binding the same name (names are unique in a test case) or, if that name
+    is bound nowhere, to the next not yet used *unbound* statement with the same right-hand side (the binding was removed)."""
+    by_name = {b: j for j, (b, _) in enumerate(others) if b is not None}
+    used, out, pos = set(), [], 0
+    for s in stmts:
+        key = code_rhs_key(s["code"])
+        j = by_name.get(s["bound"]) if s["bound"] else None
+        if j is None:
+            j = next((i for i in range(pos, len(others)) if i not in used and others[i][0] is None and others[i][1] == key), None)
+        elif others[j][1] != key:
+            j = None
+        if j is not None:
+            used.add(j)
+            pos = max(pos, j + 1)
+        out.append(j)
+    return out
+
+
+def bound_of(node):
+    if isinstance(node, ast.Assign) and len(node.targets) == 1 and isinstance(node.targets[0], ast.Name) and VAR_RE.match(node.targets[0].id):
+        return node.targets[0].id
+    return None
 
 
 def assert_kind(node_or_text):
